@@ -102,11 +102,11 @@ class Subscription(OneShotTask, DebugContents):
         self.proc_id = proc_id
         self.obj_id = obj_id
         self.confirmed = confirmed
-        self.lifetime = lifetime
+        self.lifetime = lifetime or 0
         self.covIncrement = cov_inc
 
-        # if lifetime is zero this is a permanent subscription
-        if lifetime > 0:
+        # if lifetime is zero or absent this is a permanent subscription
+        if self.lifetime > 0:
             self.install_task(delta=self.lifetime)
 
     def cancel_subscription(self):
